@@ -313,6 +313,22 @@ pub enum Op {
     /// The delete set of a document built by a script (`IdSet::from_store`
     /// behind `ReadTxn::snapshot`).
     FromStore(StoreScript),
+    /// `IdMap::filter(predicate)` of `state` (an attributed map built through
+    /// construction order `method`); `pred` is one of `FILTER_PREDS`.
+    Filter { pred: String, method: String },
+}
+
+/// Predicates of target `filter`, over the attribute list of a range.
+pub const FILTER_PREDS: [&str; 4] = ["true", "false", "has_a", "one_attr"];
+
+/// The predicate on the oracle side (attribute mask of a present clock).
+pub fn filter_pred(pred: &str, v: u8) -> bool {
+    match pred {
+        "true" => true,
+        "false" => false,
+        "has_a" => v & A_BIT != 0,
+        _ => v == A_BIT || v == B_BIT,
+    }
 }
 
 // ---- document scripts (target from_store) -----------------------------------
@@ -591,6 +607,11 @@ impl Op {
             Op::NonMut { which } => J::obj(vec![("kind", J::str("nonmut")), ("op", J::str(which))]),
             Op::FromIdMap { method } => J::obj(vec![("kind", J::str("from_idmap")), ("build", J::str(method))]),
             Op::FromStore(script) => script.to_json(),
+            Op::Filter { pred, method } => J::obj(vec![
+                ("kind", J::str("filter")),
+                ("pred", J::str(pred)),
+                ("build", J::str(method)),
+            ]),
         }
     }
 
@@ -662,6 +683,19 @@ impl Op {
                 },
             },
             "from_store" => Op::FromStore(StoreScript::from_json(j)?),
+            "filter" => {
+                let pred = j.get("pred").and_then(|m| m.as_str()).ok_or("op.pred missing (true | false | has_a | one_attr)")?;
+                if !FILTER_PREDS.contains(&pred) {
+                    return Err(format!("op.pred: unknown predicate {:?}", pred));
+                }
+                Op::Filter {
+                    pred: pred.to_string(),
+                    method: match j.get_non_null("build") {
+                        Some(m) => m.as_str().ok_or("op.build: expected a string")?.to_string(),
+                        None => "canonical".to_string(),
+                    },
+                }
+            }
             other => return Err(format!("unknown op.kind {:?}", other)),
         })
     }
